@@ -447,6 +447,23 @@ XPathProcessorImpl::tokenize(const XalanDOMString&  pat)
 
                         startSubstring = XalanDOMString::npos;
                     }
+                    else if (c == XalanUnicode::charFullStop)
+                    {
+                        // A token that starts with a full stop, and is not a
+                        // number, is '.' or '..', and ends there.  Whatever
+                        // follows ('.or *', '..-1') is another token.
+                        if (i + 1 < nChars &&
+                            pat[i + 1] == XalanUnicode::charFullStop)
+                        {
+                            ++i;
+                        }
+
+                        substring(pat, theToken, startSubstring, i + 1);
+
+                        addToTokenQueue(theToken);
+
+                        startSubstring = XalanDOMString::npos;
+                    }
                 }
             }
         }
